@@ -154,6 +154,22 @@ func runC10(c *Ctx) {
 		}
 		one(i, fam, d, false)
 	}
+	// raw HTML heavy documents under all 30 configurations (several upper/mixed-case tags per block, inline and in HTML blocks)
+	rawFrag := []string{"<DIV>", "<XMP>", "<Xmp>", "</XMP>", "<PRE>", "<Kbd>", "<EM>", "<b>", "</b>", "<script>", "<Script>", "<a href=\"x\">", "<!-- c -->", "text", " ", "\n", "*e*", "`c`", "&amp;", "<TITLE>", "</Title>", "<img\nsrc=x>"}
+	for i := 0; i < c.N(1500, 40000); i++ {
+		rng := newRng(c.Seed, "c10-raw", i)
+		var sb strings.Builder
+		if rng.Intn(2) == 0 {
+			sb.WriteString("see ")
+		}
+		for k := 2 + rng.Intn(6); k > 0; k-- {
+			sb.WriteString(rng.Pick(rawFrag))
+		}
+		one(i, "raw-html", []byte(sb.String()), true)
+	}
+	for i := 0; i < c.N(1500, 40000); i++ {
+		one(i, "inline-rich", genInlineRich(newRng(c.Seed, "c10-rich", i), true), i%4 == 0)
+	}
 	// synthetic trees (the model's theorems quantify over all trees)
 	for i := 0; i < c.N(4000, 100000); i++ {
 		rng := newRng(c.Seed, "c10-synth", i)
